@@ -8,7 +8,7 @@ D=/tmp/mwmut-$$
 mkdir -p $D
 git -C /repo worktree add -q --detach $D/repo HEAD
 trap 'cd /; git -C /repo worktree remove --force '$D'/repo 2>/dev/null; rm -rf '$D EXIT
-git -C $D/repo apply "$PATCH"
+git -C $D/repo apply "$PATCH" 2>/dev/null || git -C $D/repo apply -3 "$PATCH"
 rsync -a --exclude target /verif/harness/ $D/harness/
 sed -i "s|/repo/marwood|$D/repo/marwood|" $D/harness/Cargo.toml
 export VERIF_MAX_HEAP=${VERIF_MAX_HEAP:-3g}
